@@ -506,6 +506,9 @@ class NumericValue(Value):
             size = self.hex_len()
             size += 1 if size % 2 == 1 else 0
         format_specifier = "{{:0>{}X}}".format(size)
+        if self.negative and size == 4:
+            # four digits hold the 16-bit two's complement
+            return format_specifier.format(0x10000 - self.int)
         return format_specifier.format(self.get_negative())
 
     def hex_len(self):
